@@ -125,4 +125,8 @@ def run(ctx, chk):
                 bad.append('%r vs argument %r' % (v, a))
         chk.instance('R-COPY', short(f), '%s := argument verbatim' % field, cnt > 0 and not bad, detail='; '.join(bad[:2]) or '%d exit states' % cnt,
                      what='%s does not store its argument verbatim: %s' % (meth, bad[:1]))
+    # non-ASCII payloads and terminators (U+009C) under arbitrary chunking reach the recogniser only if
+    # the byte front end decodes the stream independently of where it is cut: the streaming clause of C02 / C11
+    from .rules_c02 import r_stream
+    r_stream(ctx, chk, 'C19')
     chk.trust('generator-rs send/yield_ contract (A-GEN)', 'string summaries (eq, contains, chars, skip, collect)')
